@@ -1767,6 +1767,16 @@ fn escape_scalar_string(value: &[u8], start: usize, end: usize, json: &mut Strin
             0x0A => "\\n",
             0x0D => "\\r",
             0x09 => "\\t",
+            0x00..=0x1F => {
+                // other control characters must be escaped to get a valid JSON string.
+                if i > last_start {
+                    let val = String::from_utf8_lossy(&value[last_start..i]);
+                    json.push_str(&val);
+                }
+                json.push_str(&format!("\\u{:04x}", value[i]));
+                last_start = i + 1;
+                continue;
+            }
             _ => {
                 continue;
             }
